@@ -11,6 +11,6 @@ CONSTANTS
     Bug = "NoDtorNoUnlink"
 \* (the implementation invariant NoGhostInGoodCase also fails under this switch, earlier; it is left out so that TLC shows the contract conjunct)
 INVARIANTS
-    TypeOK RdependsMirrorsDepends SetEmptyAtExit
+    TypeOK LoadingIsInnermostCtor RdependsMirrorsDepends SetEmptyAtExit
     B_CtorOnce B_DepsConstructedFirst B_PostInitOnce B_PostInitAfterDeps B_DtorBeforeDeps
     B_StartsComplete B_StopsClean B_AbortsWithError B_NeverRunsPartial
